@@ -52,6 +52,14 @@ theorem aggregate_median (M : FieldModel α K) (c : List α) (hnum : c.length / 
         ∧ IsOS (nums M c) (c.length / 2 - 1) lo ∧ IsOS (nums M c) (c.length / 2) hi) :=
   middle_formula M c hnum
 
+/-- **T14 (NaN side)**: `np.argsort` puts NaN last, so when the central rank of an odd number of observations does not fall on
+a number (half of the observations or more are NaN) `MEDIAN` returns a NaN — `Median` does not skip NaN, unlike the other
+aggregates (the oracle does not judge `MEDIAN` of a vector holding a NaN: the documentation gives no value). -/
+theorem aggregate_median_nan (M : FieldModel α K) (c : List α) (hodd : c.length % 2 = 1)
+    (hnum : (nums M c).length ≤ c.length / 2) :
+    ∃ r, aggFn ['M', 'E', 'D', 'I', 'A', 'N'] c = .ok r ∧ Scalar.isNaN r = true :=
+  middle_nan M c hodd hnum
+
 /-- the hypothesis of T14 on a non-empty vector without NaN -/
 theorem median_rank_of_noNaN (M : FieldModel α K) (c : List α) (hne : c ≠ []) (h : ∀ a ∈ c, Scalar.isNaN a = false) :
     c.length / 2 < (nums M c).length := by
@@ -128,5 +136,9 @@ example : aggFn ['M', 'E', 'D', 'I', 'A', 'N'] ([some 4, some 1, some 3, some 2]
 example : pyInt ((4 : Nat) / 2 - 1 : Rat) = 1 ∧ pyInt ((4 : Nat) / 2 : Rat) = 2 := by
   have := median_index_arithmetic 4 (by decide) (by decide)
   simpa using this
+
+/-- `MEDIAN{[NaN, 1, NaN]}` is NaN -/
+example : ∃ r, aggFn ['M', 'E', 'D', 'I', 'A', 'N'] ([none, some 1, none] : List (Option Rat)) = .ok r ∧ Scalar.isNaN r = true :=
+  aggregate_median_nan exactQ_model _ (by decide) (by decide)
 
 end TV.C02
